@@ -36,6 +36,11 @@ pub open spec fn te_name() -> Seq<u8> { seq![116u8,114,97,110,115,102,101,114,45
 pub open spec fn cl_name() -> Seq<u8> { seq![99u8,111,110,116,101,110,116,45,108,101,110,103,116,104] }               // "content-length"
 pub open spec fn ce_name() -> Seq<u8> { seq![99u8,111,110,116,101,110,116,45,101,110,99,111,100,105,110,103] }        // "content-encoding"
 
+#[verifier::external_type_specification] #[verifier::external_body] pub struct ExVersion(Version);
+pub assume_specification [StatusCode::is_redirection] (s: &StatusCode) -> (r: bool) ensures r == (300 <= status_u16(*s) < 400);
+pub assume_specification [StatusCode::is_client_error] (s: &StatusCode) -> (r: bool) ensures r == (400 <= status_u16(*s) < 500);
+pub assume_specification [StatusCode::is_server_error] (s: &StatusCode) -> (r: bool) ensures r == (500 <= status_u16(*s) < 600);
+pub assume_specification [StatusCode::as_u16] (s: &StatusCode) -> (r: u16) ensures r == status_u16(*s);
 pub assume_specification [StatusCode::is_informational] (s: &StatusCode) -> (r: bool) ensures r == (100 <= status_u16(*s) < 200);
 pub assume_specification [StatusCode::is_success] (s: &StatusCode) -> (r: bool) ensures r == (200 <= status_u16(*s) < 300);
 pub assume_specification[ HeaderMap::<HeaderValue>::new ]() -> (r: HeaderMap<HeaderValue>)
